@@ -175,7 +175,24 @@ func vh_C36_stale() {
 	tr := vNewTransport()
 	c36noPing(tr)
 	c := vNewClient(n, "u1", tr)
-	switch vChoice("mode", 4) {
+	slow := false
+	n.OnConnect(func(c *Client) {
+		if slow {
+			// the connect callback is slow: the stale deadline passes while it runs
+			vAdvance(2)
+			vSettle()
+		}
+	})
+	switch vChoice("mode", 5) {
+	case 4: // connects in time; the stale deadline passes while OnConnect still runs
+		slow = true
+		vAdvance(d - 1)
+		vAssert(vConnect(c), "connect in time")
+		vSettle()
+		vAssert(!tr.closed, "a connection authenticated in time is not closed as stale while its connect callback runs")
+		vAdvance(3 * d)
+		vAssert(!tr.closed, "authenticated connection is never closed as stale")
+		vCover(true, "deadline-inside-connect-callback")
 	case 0: // never sends connect
 		vAdvance(d - 1)
 		vAssert(!tr.closed, "not closed before the stale delay")
